@@ -129,6 +129,8 @@ def run(tier):
     for c in inputs.corpus()[:: (4 if tier == "quick" else 1)]:
         b = c["src"].encode("latin-1")
         srcs.append(b.replace(b"\n", b"\r\n"))
+    for fam_ in ("7", "5"):
+        srcs += progs.token_mutations(check, fam_, core.seed(), 150 if tier == "quick" else 2000)
     srcs = list(dict.fromkeys(srcs))
     # sources of tens of thousands of tokens: every token and position lives in 1024-entry pool blocks
     scaled = progs.scaled_sources(check, "5", core.seed(), 700 if tier == "quick" else 4000, (300,))
